@@ -10,6 +10,7 @@ import numpy as np
 import z3
 
 from ..core import CheckerError
+from ..pycheck import keep_matrix as _keep_matrix
 from ..poly import P, normal
 from .. import pysym, shims, kharness as K
 from ..pysym import real, integer, to_z3, Opaque, SymRaise
@@ -35,8 +36,8 @@ def harness(model):
                 it.contracts['%s.%s' % (mn, fn)] = kernel('%s.%s' % (mn.split('.')[-1], fn))
     it.contracts['attr:nlmat.T'] = lambda itp, o: Opaque('transpose', of=o)
     it.contracts['compmech.sparse.make_symmetric'] = lambda itp, a, kw: Opaque('sym', of=a[0])
-    it.contracts['scipy.sparse.coo_matrix'] = lambda itp, a, kw: a[0]
-    it.contracts['scipy.sparse.csr_matrix'] = lambda itp, a, kw: a[0]
+    it.contracts['scipy.sparse.coo_matrix'] = _keep_matrix
+    it.contracts['scipy.sparse.csr_matrix'] = _keep_matrix
     it.contracts['compmech.conecyl.conecyl.ConeCyl.exclude_dofs_matrix'] = \
         lambda itp, a, kw: {'kuu': Opaque('kuu', of=a[1]), 'kuk': Opaque('kuk', of=a[1])}
     return it, calls
